@@ -90,7 +90,7 @@ def kind_class(op, tok):
     return "/K" + hit + ("" if own else "-")
 
 def syntax_class(tok):
-    """R-12c / D-12g class of a request's field list: `/Y` followed by one letter per crate-independent necessary condition
+    """R-12c class (finding D-12g, repaired) of a request's field list: `/Y` followed by one letter per crate-independent necessary condition
     that a pseudo-header value of the section fails — `s` (:scheme not an RFC 3986 scheme: empty, first byte not a letter,
     a byte outside letters / digits / + - .), `a` (:authority with two `@`, or a non-numeric port), `p` (:path with `#`),
     `e` (:path empty under http / https). Empty when all hold."""
@@ -133,7 +133,7 @@ METHODS_BAD = [b"", b"G T", b"GET\x00", b"GET ", b" GET", b"G\tT", b"G(T", b'G"T
 STATUS_MISC = [b"200", b"099", b"100", b"999", b"1000", b"20", b"2", b"", b"2x0", b"20\x00", b" 200", b"200 ", b"+20", b"-20", b"0200", b"600",
                b"101", b"000", b"\xef\xbc\x92\xef\xbc\x90\xef\xbc\x90", b"2 0", b"20a", b"a00"]
 SCHEMES = [b"https", b"http", b"HTTP", b"Https", b"ftp", b"", b"ht tp", b"h\x00", b"1http", b"a+b-c.d", b"a" * 64, b"a" * 65, b"http:", b"http://",
-           b"h\xc3\xa9", b"\xff", b"wss", b"h_p", b"-a", b"a/b"]
+           b"h\xc3\xa9", b"\xff", b"wss", b"h_p", b"-a", b"a/b", b"h~p"]
 AUTHS = [b"a.com", b"b.com", b"a.com:443", b"user@a.com", b"u:p@a.com", b"[::1]", b"[::1]:80", b"", b"a b", b"a/b", b"A.COM", b"a.com:", b"a..com",
          b":80", b"\xc3\xa9.com", b"a.com\x00", b"a.com\r\n", b"[::1", b"a.com#f", b"a?b", b"a@b@c", b"localhost", b"127.0.0.1:8080", b"a%20b",
          b"a\tb", b"\xff", b"a.com:65536", b"a.com:x", b"*", b"a" * 300]
@@ -162,8 +162,9 @@ class C12(Prop):
                   "fixed order, with the caller's values, then the map in its own order; reading R-12c: the :protocol tokens are "
                   "written out in the specification and proved equal to the list read from ext.rs, and the crate-independent "
                   "necessary conditions of a parseable :scheme / :authority / :path (RFC 3986 3.1-3.4, RFC 9114 4.3.1) are proved "
-                  "for every Http whose parsers refuse what they exclude (_partial; the real http crate does not: finding D-12g, "
-                  "negation witness by decide)")
+                  "for every Http whose PathAndQuery refuses the empty string: Field::parse checks the scheme grammar, the two "
+                  "authority conditions and the absence of # itself (pseudo_value_syntax, the D-12g fix; witness by decide that an "
+                  "Http answering as the real crate does accepts what this check refuses)")
     level_note = ("trusted: Lean kernel + 3 standard axioms; hand-written model tied to the code by the differential run: the real "
                   "Header functions (function level), the real poll_recv_trailers over an in-memory stream, and the real "
                   "server accept+resolve_request / client send_request+recv_response over a private 160-line in-memory "
@@ -171,9 +172,9 @@ class C12(Prop):
                   "on the request stream read back by the specification's RFC 9204 reference decoder (driver op `hdr dec`), and "
                   "trailers received through the public recv_data + recv_trailers wrappers of client and server, "
                   "against the model on identical case lines; tools/extract.py regenerates the Protocol table, the "
-                  "error codes used at the three call sites and six source decisions the model switches on; http crate: four "
+                  "error codes used at the three call sites and seven source decisions the model switches on; http crate: four "
                   "validators modelled concretely (all 256 single-byte names/values/methods and digit triples enumerated against "
-                  "the real crate), Scheme/Authority/PathAndQuery/Uri::builder abstract with four listed laws, instantiated per "
+                  "the real crate), Scheme/Authority/PathAndQuery/Uri::builder abstract with five listed laws, instantiated per "
                   "case by the real crate's verdicts carried on the case line and checked against the laws")
     rule = ("cases: every alphabet name x value in request/response/trailer context, all 256 single-byte names (4 positions incl. "
             "a 65-byte name) and values, all 256 single-byte methods, status digit triples, scheme/authority/path/protocol "
@@ -195,7 +196,8 @@ class C12(Prop):
                "the w... ops trust H3.Spec.Qpack.specDecode (the RFC 9204 reference decoder of C11's specification) and a ten-line "
                "frame-header reader in Drv/C12.lean to read what h3 wrote"]
     assumptions = ["HttpLaws: Authority::from_str(\"\") fails; Authority::as_str is the input; Uri::builder with an empty authority "
-                   "fails; the builder parses its authority with Authority's parser (each checked on every verdict table)",
+                   "fails; the builder parses its authority with Authority's parser; HttpSyntaxLaws: PathAndQuery::from_str(\"\") "
+                   "fails (each checked on every verdict table)",
                    "http::HeaderMap::try_append fails exactly when it is called on a map that already holds 24576 distinct names "
                    "(try_reserve_one runs before the name is looked up; index table of at most 2^15 slots, 3/4 usable), whatever "
                    "the name; any number of values per name; the hash-flooding defence (yellow/red danger states after probe "
@@ -203,8 +205,8 @@ class C12(Prop):
                    "caller-built HeaderMap names satisfy HeaderName's invariant (no ':'), values HeaderValue's",
                    "R-12c: 'parseable' = the http crate's parser accepts the value AND the value satisfies the crate-independent "
                    "necessary conditions SyntaxOk (scheme = RFC 3986 3.1 grammar; authority: at most one @, numeric port outside an IP "
-                   "literal; path: no #, not empty under http/https); not demanded: no userinfo, non-empty host, port < 65536; open "
-                   "finding D-12g on the first three",
+                   "literal; path: no #, not empty under http/https); not demanded: no userinfo, non-empty host, port < 65536; the "
+                   "first three are h3's own check since the D-12g fix, the empty path is the crate's refusal",
                    "R-12: duplicated pseudo-header fields (which of several different values counts), pseudo-header fields after "
                    "regular ones, missing :scheme/:path are not demanded by the "
                    "property text; demanded (D-12f): 'only defined pseudo-header fields' = defined for this kind of message "
